@@ -130,7 +130,11 @@ func main() {
 	for round := 0; round < nBrounds; round++ {
 		for _, t := range templates {
 			tm := t(run.Rng)
-			items = append(items, &item{Stream: "B", Name: tm.Name, Class: tm.Class, Tmpl: &tm, Ref: tm.Src, Expect: tm.Expect, Goroutines: 2})
+			ref := tm.Src
+			if tm.RefSrc != "" {
+				ref = tm.RefSrc
+			}
+			items = append(items, &item{Stream: "B", Name: tm.Name, Class: tm.Class, Tmpl: &tm, Ref: ref, Expect: tm.Expect, Goroutines: 2})
 		}
 	}
 	for round := 0; round < nCrounds; round++ {
@@ -212,7 +216,11 @@ func main() {
 				run.Disagree(common.Disagreement{Kind: "spec-vs-ref", Input: inputOf(it, nil), Spec: f["g"], Ref: refOut(it), Note: "model with the empty closure-write table vs compiled Go"})
 			}
 			if f["d"] != "1" {
-				run.Errorf("model: a statement kind shares its operand variables (closure-write table not empty): %s", it.Lean)
+				// the regenerated closure-write table is not empty (closurewrites_tie is broken): reported once
+				if run.Res.Extra["table_not_empty"] == nil {
+					run.Res.Extra["table_not_empty"] = it.Lean
+					run.Errorf("model: a statement kind of the program shares its operand variables (the regenerated closure-write table is not empty), first: %s", trunc(it.Lean, 300))
+				}
 			} else {
 				// the theorems, observed: y = g, and for the private family every trace is the solo trace
 				if f["y"] != f["g"] {
@@ -252,6 +260,14 @@ func main() {
 			c := Case{ID: id, Sched: cf.Sched, Prob: cf.Prob, Seed: run.Rng.Int63(), MS: 20000}
 			if it.Class != "" {
 				c.MS = 5000 // outside the domain a dead-lock is a possible outcome
+			}
+			if it.Tmpl != nil && it.Tmpl.Parties > 0 && k == 0 {
+				// the goroutines meet before every execution of the statement under test
+				c.Sched, c.Prob, c.N = "lockstep", 0, it.Tmpl.Parties
+				cf.P = 4
+				if it.Tmpl.Parties > 3 {
+					cf.P = 8
+				}
 			}
 			id++
 			switch it.Stream {
